@@ -40,6 +40,18 @@ type Cfg struct {
 	SelfRef           bool // structs may refer to themselves through optional fields
 	MapStructKey      bool // struct-like map keys
 	UnionDefaults     bool
+	DistinctThrows    bool // a throws list names each exception type at most once
+}
+
+// GoSafe is the configuration for programs that are handed to the Go backend:
+// only shapes the backend documents as supported (no raw control characters or
+// foreign escapes in literals, no container/double map keys).
+func GoSafe() Cfg {
+	c := Full()
+	c.GoSafe = true
+	c.RawCtl = false
+	c.CppStuff = false
+	return c
 }
 
 // Full is the configuration used when nothing needs narrowing.
@@ -154,10 +166,10 @@ func (g *gen) genFile(f *File) {
 		}
 	}
 	// namespaces
-	if !(cfg.NoNamespace && g.p(1, 5, "nons")) {
-		ns := fmt.Sprintf("vmod.p%d", f.Index)
+	if !(cfg.NoNamespace && f.Index != 0 && g.p(1, 5, "nons")) {
+		ns := fmt.Sprintf("p%d", f.Index)
 		if cfg.SharedNS && f.Index > 0 && g.p(1, 3, "sharens") {
-			ns = fmt.Sprintf("vmod.p%d", g.intn(0, f.Index, "sharewith"))
+			ns = fmt.Sprintf("p%d", g.intn(0, f.Index, "sharewith"))
 		}
 		if g.p(1, 3, "deepns") {
 			ns += ".sub.pkg" + strconv.Itoa(f.Index)
@@ -377,9 +389,6 @@ func (g *gen) genType(depth int, asKey bool) *Type {
 	t := g.genType1(depth, asKey)
 	if len(t.Annos) == 0 {
 		t.Annos = g.annos(1)
-		if g.cfg.GoSafe {
-			t.Annos = nil
-		}
 	}
 	return t
 }
@@ -488,7 +497,19 @@ func (g *gen) genFields(kind string) []*Field {
 			f.Req = ReqDefault
 		}
 		if kind == "throws" {
-			cands := g.visible(func(d *Def) bool { return d.Kind == KException })
+			cands := g.visible(func(d *Def) bool {
+				if d.Kind != KException {
+					return false
+				}
+				if g.cfg.DistinctThrows {
+					for _, x := range fs {
+						if x.Type.Ref == d {
+							return false
+						}
+					}
+				}
+				return true
+			})
 			if len(cands) == 0 {
 				break
 			}
